@@ -211,7 +211,7 @@ theorem me_bds09_ground (F : List Nat) (df c aa sub ic ifr nacv dew vew dns vns 
     (ew ns : Int) (vrv gbv : Option Int)
     (hF : Frame F (esHeader df c aa ++ me09 sub ic ifr nacv (velGround dew vew dns vns) vsrc vsign vr gsign g))
     (hsub : sub = 1 ∨ sub = 2)
-    (hew : Bds09.velComponent dew vew = .ok ew) (hns : Bds09.velComponent dns vns = .ok ns)
+    (hew : Bds09.velComponent sub dew vew = .ok ew) (hns : Bds09.velComponent sub dns vns = .ok ns)
     (hvr : Bds09.vrate vsign vr = .ok vrv) (hgb : Bds09.geoBaro gsign g = .ok gbv) :
     wpOk Message.me (MEPost F (out09 nacv
       [ fld (key! "groundspeed") (Bds09.groundspeedJ ew ns), fld (key! "track") (Bds09.trackJ ew ns) ]
